@@ -16,7 +16,9 @@
 (***************************************************************************)
 EXTENDS Integers, TLC
 CONSTANTS CRev, SRev,      \* client's and server's revision
-          Behaviour,       \* "hello" | "late" | "exception" | "other" | "cut" | "stall"
+          Behaviour,       \* "hello" | "late" | "exception" | "other" | "cut" | "stall" | "blockw" (hello sent, but the
+                           \* server does not read any more: the addendum write blocks)
+          CancelAt,        \* tick at which the caller cancels the context (a value beyond Limit: never)
           Delay, Limit,    \* ticks
           AddendumRev,
           RetryTimeouts, CloseOnFail
@@ -45,9 +47,20 @@ Read == /\ pc = "read" /\ Arrived
                   /\ UNCHANGED connClosed
              ELSE Fail(IF Behaviour = "exception" THEN "exc" ELSE "err") /\ UNCHANGED rev
         /\ UNCHANGED <<clock, sentHello, sentAddendum>>
-SendAddendum == /\ pc = "addendum" /\ sentAddendum' = TRUE /\ result' = "ok" /\ pc' = "done"
+SendAddendum == /\ pc = "addendum" /\ Behaviour # "blockw" /\ sentAddendum' = TRUE /\ result' = "ok" /\ pc' = "done"
                 /\ UNCHANGED <<clock, rev, connClosed, sentHello>>
-Next == SendHello \/ Tick \/ Read \/ SendAddendum
+\* a blocked addendum write ends with the write deadline of the handshake (or by cancellation)
+BlockedTick == /\ pc = "addendum" /\ Behaviour = "blockw" /\ clock < Limit /\ clock' = clock + 1
+               /\ IF clock + 1 >= Limit THEN Fail("timeout") /\ UNCHANGED <<rev, sentHello, sentAddendum>>
+                  ELSE UNCHANGED <<pc, rev, result, connClosed, sentHello, sentAddendum>>
+\* the caller cancels: the watchdog closes the connection whatever the handshake is doing (waiting for the hello,
+\* blocked in a write), the context's error is returned
+Cancelled == clock >= CancelAt
+Cancel == /\ pc # "done" /\ Cancelled
+          /\ result' = "ctx" /\ pc' = "done" /\ connClosed' = TRUE
+          /\ UNCHANGED <<clock, rev, sentHello, sentAddendum>>
+\* (once the context is cancelled nothing else of the handshake goes on)
+Next == Cancel \/ (~Cancelled /\ (SendHello \/ Tick \/ Read \/ SendAddendum \/ BlockedTick))
 Spec == Init /\ [][Next]_vars /\ WF_vars(Next)
 
 Done == pc = "done"
@@ -55,7 +68,10 @@ Negotiated == Done /\ result = "ok" => rev = Min(CRev, SRev)
 AddendumIff == Done /\ result = "ok" => (sentAddendum <=> Min(CRev, SRev) >= AddendumRev)
 FailsCleanly == Done /\ result # "ok" => connClosed /\ ~sentAddendum
 \* a hello that arrives before the handshake time-out is accepted
-LateHelloAccepted == Done /\ Behaviour \in {"hello", "late"} /\ Delay < Limit - 1 => result = "ok"
+LateHelloAccepted == Done /\ Behaviour \in {"hello", "late"} /\ Delay < Limit - 1 /\ CancelAt > Limit => result = "ok"
+\* cancellation during the handshake closes the connection and returns the context's error - before the handshake
+\* time-out, whatever the server does
+CancelEndsIt == Done /\ CancelAt < Limit - 1 /\ result # "ok" => (result \in {"ctx", "exc", "err"} /\ connClosed /\ clock <= CancelAt + 1)
 ExceptionCarried == Done /\ Behaviour = "exception" => result = "exc"
 Terminates == <>Done
 =============================================================================
